@@ -63,18 +63,6 @@ theorem c20_batch_builder (entries : List (Text × Option Text)) :
 
 /-! Stable values exist and include what the harness inserts -/
 
-theorem stable_encodeString (s : Text) : Stable (encodeString s) := by
-  refine ⟨1, ?_⟩
-  intro r _
-  have : encodeString s ++ r = 34 :: (encodeStrBody s ++ 34 :: r) := by simp [encodeString]
-  rw [this, skipValue]
-  simp [skipStr_encodeStrBody]
-
-theorem stable_null : Stable tNull := by
-  refine ⟨1, ?_⟩
-  intro r _
-  simp [tNull, skipValue, matchLit]
-
 -- non-vacuity: a failing insert between two successful ones
 example : (Builder.positional.insertAll [.ok tNull, .fails [123, 34], .ok (encodeString [97])]).build
     = some [91, 110, 117, 108, 108, 44, 34, 97, 34, 93] := by decide
